@@ -457,7 +457,7 @@ SPEC = {
     "lean_modules": ["TrustVerif.Props.C18"],
     "translators": [translate_control],
     # `cases` = number of scenario cases AFTER the exhaustive product (every dispatched name and 11
-    # unknown/garbled names x 12 credentials x {token set, unset} x {debug on, off} = one case each)
+    # unknown/garbled names x 17 credentials x {token set, unset} x {debug on, off} = one case each)
     "tiers": {
         "quick": {"cases": 640, "extra": {"tables": "C18.tables.json"}},
         "thorough": {"cases": 40000, "extra": {"tables": "C18.tables.json"}},
@@ -470,10 +470,13 @@ SPEC = {
             "(auth token set/unset/empty, "
             "control_requires_auth, debug switch, control mode, pairing store with viewer/operator/engineer/admin/"
             "expired/revoked/expiring-now tokens and a pending code) x one request line (exhaustive part: every "
-            "dispatched name and 11 unknown names x 12 credentials x token set/unset x debug on/off, parameters "
+            "dispatched name and 11 unknown names x 17 credentials (none, wrong, empty, strict prefix, token+suffix, token+space, "
+            "space+token+tab, case variant, prefix of a pairing token, the token, pairing token of each role, expired, revoked, "
+            "expiring now) x token set/unset x debug on/off, parameters "
             "drawn from a per-type palette of effective / rejected / garbage values) or a scenario (garbled byte "
             "streams, config.set key combinations, token rotation/removal, debug switch, revoke, full pairing flow "
-            "with role sanitising, clock advance over token/code expiry, two principals on one connection); "
+            "with role sanitising, clock advance over token/code expiry, two principals on one connection, runtime restart "
+            "that re-opens the pairing store from its file after revoke / claim / expiry / pair.start); "
             "non-trivial = the line was refused by a gate (unauthorized / forbidden / debug disabled / unsupported / "
             "connection closed) or changed at least one probe; distinct = by hash of the case's operation lines",
     "trusted_base": [
@@ -513,7 +516,8 @@ MANIFEST = {
                   "credential maps to a role >= the role required for its type and parameters, with the debug gate open and a "
                   "handler present (c18_effect_needs_role, lifted to arbitrary histories with clock ticks); with a token "
                   "configured, requests without the token or a live pairing token get the bare 'unauthorized' reply and change "
-                  "nothing, over any history (c18_unauth_silent, c18_history_unauth_silent, c18_credential_none_iff); every "
+                  "nothing, over any history of lines, clock ticks and runtime restarts (c18_unauth_silent, c18_history_unauth_silent, "
+                  "c18_credential_none_iff; c18_reload_preserves_credentials: re-opening the pairing store changes no credential); every "
                   "dispatched name is classified, listed in the permission table and unique, and every mutating one requires "
                   "more than viewer for all parameters (decide over the regenerated tables + c18_mutating_above_viewer); "
                   "config.set needs engineer, admin for credential/auth-mode keys; the debug list equals the names of the "
@@ -600,36 +604,46 @@ def extra(ctx):
         debug_class = {h["name"] for m in tables["modules"] if m["module"] in ("debug", "variables") for h in m["handlers"]}
     except Exception:
         debug_class = set()
-    INVALID = ("none", "wrong", "near", "empty", "expired", "revoked")
+    def fail_input(c, op, impl, why):
+        if len(res["oracle_failures"]) < 40:
+            f = _fields(op)
+            world = next((l for l in c.lines if l.startswith("world ")), "")
+            res["oracle_failures"].append({
+                "what": why, "case": c.n, "seed": ctx["seed"], "tier": ctx["tier"], "op": op,
+                "request_line": _unhex(f.get("raw", "-")), "impl": impl, "world": world, "case_lines": c.lines,
+            })
+        # reported as a failing input; not again as a model disagreement
+        r["disagreements"][:] = [d for d in r["disagreements"] if d.get("case") != c.n]
+
     for c in cases:
         world = next((l for l in c.lines if l.startswith("world ")), None)
         if not world or not c.ops:
             continue
         wf = _fields(world)
-        op, impl = c.ops[0]
-        if not op or not op.startswith("req "):
-            continue
-        f = _fields(op)
-        cred = f.get("cred", "-")
-        if cred == "-":
-            continue
-        cls, fx = _class_of(impl)
-        t = _unhex(f.get("type", "-"))
-        why = None
-        token = wf.get("token", "none")
-        if token not in ("none", "s-") and cred in INVALID and (cls != "unauthorized" or fx):
-            why = f"auth token configured, credential '{cred}' is not valid, yet the reply is '{impl}' (must be the bare unauthorized error, no effect)"
-        elif wf.get("pairing") == "1" and cred == "pv" and fx:
-            why = f"a viewer-role pairing token changed {sorted(fx)} with request '{t}' (every mutating request must require more than viewer)"
-        elif wf.get("debug") == "0" and t in debug_class and (cls == "handled" or fx):
-            why = f"debug-class request '{t}' was executed while debugging is disabled: '{impl}'"
-        if why and len(res["oracle_failures"]) < 40:
-            res["oracle_failures"].append({
-                "what": why, "case": c.n, "seed": ctx["seed"], "tier": ctx["tier"], "op": op,
-                "request_line": _unhex(f.get("raw", "-")), "impl": impl, "world": world, "case_lines": c.lines,
-            })
-            # reported as a failing input; not again as a model disagreement
-            r["disagreements"][:] = [d for d in r["disagreements"] if d.get("case") != c.n]
+        for k, (op, impl) in enumerate(c.ops):
+            if not op or not op.startswith("req "):
+                continue
+            f = _fields(op)
+            cls, fx = _class_of(impl)
+            t = _unhex(f.get("type", "-"))
+            # (i) a credential that is not exactly the configured token and not a pairing token that may be
+            #     live (judged by the harness, `valid=no`) must get the bare unauthorized reply with the
+            #     caller's id and change nothing -- in every case, at every position of a history
+            if f.get("valid") == "no" and impl.strip() != f"id={f.get('id')} unauthorized fx=-":
+                fail_input(c, op, impl,
+                           f"an auth token is configured and the credential {_unhex((f.get('auth') or 's-')[1:])!r} "
+                           f"(generator's name: {f.get('cred')}) is neither that token nor a live pairing token, yet the "
+                           f"reply to '{t}' is '{impl}' (must be the bare unauthorized error, no effect)")
+                continue
+            if k != 0 or f.get("cred", "-") == "-":
+                continue
+            # (ii) exhaustive cases: the generator knows what the credential is
+            cred = f["cred"]
+            if wf.get("pairing") == "1" and cred == "pv" and fx:
+                fail_input(c, op, impl, f"a viewer-role pairing token changed {sorted(fx)} with request '{t}' "
+                                        "(every mutating request must require more than viewer)")
+            elif wf.get("debug") == "0" and t in debug_class and (cls == "handled" or fx):
+                fail_input(c, op, impl, f"debug-class request '{t}' was executed while debugging is disabled: '{impl}'")
 
     # (2) the classification is validated only if every dispatched name was seen handled, every mutating name
     #     was seen changing a probe, and every gate was seen refusing
